@@ -24,7 +24,7 @@ def chunk_lemmas(kind, props):
             defs["PMAX"] = "%du" % pmax
             b += ", position < %d" % pmax
         return Lemma(name="%s.%s.c%d%s" % (props[0], kind, c, ".p%d" % pmax if pmax else ""), src="steps.c", entry=entry, props=props, tier=tier,
-                     defs=defs, enforce=[R(fn)], replace=rep, unwindset=US, functions=[fn], bounded=b,
+                     defs=defs, enforce=[R(fn)], replace=rep, unwindset=US, functions=[fn], bounded=b, slice=True,
                      timeout=900 if not pmax else 300,
                      desc=what + "; position and instruction length (1..20) symbolic, buffer length any int")
     for c in POW2_Q:
